@@ -357,6 +357,7 @@ def _worker(case):
             ent['r1_o'] = np.sign(ye - mue) * np.sqrt(dv / impl['scale'])
             De, D0e = np.float64(np.sum(dv)), np_total_dev(dist, levels, ye, mu0e, we_)
             ent['expl_o'] = 1 - De / D0e
+            ent['D0e'] = float(D0e)
             ent['expl_tol'] = 1e-8 * (1 + abs(De / D0e)) + (1e-8 * abs(De) + 1e-11 * np.float64(np.sum(we_ * (np.abs(ye) + np.abs(mue) + 1)))) / abs(D0e) * (1 + abs(De / D0e))
             ent['acc_o'] = float(np.mean((mue > 0.5).astype(float) == ye))
             ent['mag'] = we_ * (np.abs(ye) + np.abs(mue) + 1)
@@ -514,6 +515,8 @@ def _oracle_findings(r, margin=10.0):
             continue
         if s_ == 'explained' and not (abs(O.get('D0', 1.0)) > 0):
             continue        # null deviance exactly 0 (a single observation): 1 - D / 0 is +-inf by the sign of rounding noise in D
+        if s_ in ('mcf', 'mcfadj') and not (np.isfinite(O.get('ll0', 0.0)) and abs(O.get('ll0', 0.0)) > 0 and np.isfinite(I['ll'])):
+            continue        # null log-likelihood exactly 0 or non-finite (a single observation, a zero scale): 1 - ll / ll0 is 0/0 or x/0
         if not _close(I[s_], O[s_], (tol or 0.0) * margin, rtol=1e-9 * margin):
             bad.append((s_, I[s_], O[s_], 'tol %.3g' % ((tol or 0.0) * margin)))
     # log-likelihood against the closed-form densities
@@ -545,6 +548,10 @@ def _oracle_findings(r, margin=10.0):
             if not abs(I['edof'] - e_or) <= thr * margin * max(1.0, abs(e_or)):
                 bad.append(('edof', I['edof'], e_or, 'trace of the influence matrix (QR form; dense form %.12g), tol %.3g' % (O['edof_dense'], thr * margin)))
             cm = float(np.abs(O['covB_qr']).max() * abs(I['scale'])) + 1e-300
+            # natural size of a covariance entry: scale / d_min^2 (d the singular values of [R; E]); when the kept rows carry
+            # no information (WB = 0: a by-variable that is 0 on every row) cov is exactly 0 and what is computed is rounding
+            # noise of size eps^2 — compared on the natural scale, not relative to itself
+            cm = max(cm, 1e-12 * abs(I['scale']) / max(float(r['contracts'].get('dmin', 1.0)), 1e-150) ** 2)
             dc = float(np.abs(O['covB_qr'] * I['scale'] - I['cov']).max() / cm)
             dc2 = float(np.abs(O['covB'] * I['scale'] - I['cov']).max() / cm)
             if not min(dc, dc2) <= thr * margin:
@@ -579,13 +586,16 @@ def _oracle_findings(r, margin=10.0):
             if not ok.all():
                 i = int(np.argmin(ok))
                 bad.append(('%s/%s' % (nm_, ent['name']), float(a[i]), float(bq[i]), 'row %d' % i))
-        if not zero_scale and not _close(ent['expl'], ent['expl_o'], ent['expl_tol'] * margin, rtol=1e-8 * margin):
+        # (null deviance exactly 0 or not finite — one effective observation — makes 1 - D / D0 +-inf by the sign of rounding noise: not judged)
+        if not zero_scale and abs(ent.get('D0e', 1.0)) > 0 and np.isfinite(ent.get('D0e', 1.0)) and not _close(ent['expl'], ent['expl_o'], ent['expl_tol'] * margin, rtol=1e-8 * margin):
             bad.append(('score/%s' % ent['name'], ent['expl'], ent['expl_o'], 'explained deviance'))
         if 'acc' in ent:
             for kk in ('acc', 'acc_mu', 'score'):
                 if not _close(ent[kk], ent['acc_o'], 1e-12):
                     bad.append(('accuracy(%s)/%s' % (kk, ent['name']), ent[kk], ent['acc_o'], ''))
-        if np.isfinite(ent['ll']) or np.isfinite(ent['ll_o']):
+        # (an extrapolated mean beyond 1e+-60 overflows / underflows inside the closed form of the oracle itself: inf - inf)
+        extreme_mu = bool(np.isnan(ent['ll_o']) and (np.min(np.abs(ent['mu'])) < 1e-60 or np.max(np.abs(ent['mu'])) > 1e60))
+        if (np.isfinite(ent['ll']) or np.isfinite(ent['ll_o'])) and not extreme_mu:
             tol = _ll_tol(ent['ll_o'], len(ent['y']), np.max(ent['w']), r['impl']['scale'])
             if not _close(ent['ll'], ent['ll_o'], tol * margin):
                 bad.append(('loglikelihood()/%s' % ent['name'], ent['ll'], ent['ll_o'], 'tol %.3g' % (tol * margin)))
@@ -801,15 +811,20 @@ def _process(ctx, results):
                 tols = _scalar_tols(r)
                 model = dict(zip(SCALARS, sc))
                 dis = [s_ for s_ in SCALARS if not _close(I[s_], model[s_], tols[s_] or 0.0, rtol=1e-9)]
+                if not (np.isfinite(r['orc'].get('ll0', 0.0)) and abs(r['orc'].get('ll0', 0.0)) > 0 and np.isfinite(I['ll'])):
+                    dis = [s_ for s_ in dis if s_ not in ('mcf', 'mcfadj')]     # 1 - ll / ll0 with ll0 = 0 or non-finite: not judged (as in the oracle)
                 if dis and not oracle_bad:
                     ctx.disagree(st_rf if refit else st_cf, sig, {s_: I[s_] for s_ in dis}, {s_: model[s_] for s_ in dis}, 'closed-form statistics differ: %s' % dis)
                 if r['converged']:
                     ctx.case(st_sv, sig, nontrivial=nontriv, sample=dict(small, edof_model=edofM, thr=thr))
                     if judged and not oracle_bad:
                         cm = float(np.abs(I['cov']).max()) + 1e-300
+                        # zero-information fits (WB = 0): cov and se are rounding noise around 0; natural scale as in the oracle
+                        nat = 1e-12 * abs(I['scale']) / max(float(r['contracts'].get('dmin', 1.0)), 1e-150) ** 2
+                        cm = max(cm, nat)
                         de = abs(edofM - I['edof']) / max(1.0, abs(I['edof']))
                         dc = float(np.abs(covM - I['cov']).max() / cm)
-                        ds = float(np.abs(seM - I['se']).max() / (np.abs(I['se']).max() + 1e-300))
+                        ds = float(np.abs(seM - I['se']).max() / max(np.abs(I['se']).max() + 1e-300, np.sqrt(nat)))
                         if not (de <= thr and dc <= thr and ds <= thr):
                             ctx.disagree(st_rf if refit else st_sv, sig, dict(edof=I['edof']), dict(edof=edofM, rel_edof=de, rel_cov=dc, rel_se=ds, thr=thr),
                                          'edof / cov / se differ from the model solve')
@@ -832,7 +847,7 @@ def _process(ctx, results):
                     ok = _resid_ok(a, rm, tol)
                     if not ok.all():
                         dis.append('%s row %d: %r vs %r' % (key, int(np.argmin(ok)), float(a[int(np.argmin(ok))]), float(rm[int(np.argmin(ok))])))
-                if not _close(ent['expl'], scoreM, ent['expl_tol'], rtol=1e-8):
+                if abs(ent.get('D0e', 1.0)) > 0 and np.isfinite(ent.get('D0e', 1.0)) and not _close(ent['expl'], scoreM, ent['expl_tol'], rtol=1e-8):
                     dis.append('score %r vs %r' % (ent['expl'], scoreM))
                 if 'acc' in ent and not (_close(ent['acc'], accM, 1e-12) and _close(ent['score'], accM, 1e-12) and _close(ent['acc_mu'], accM, 1e-12)):
                     dis.append('accuracy %r vs %r' % (ent['acc'], accM))
